@@ -268,6 +268,17 @@ theorem reload_after_other_loads (c c₁ : LoadSt) (pre : List Char) (e₁ e₂ 
     rw [Levels.set_comm c.slots hne ev d]
     simp only [Levels.set_set]
 
+/-- DEFERRED MERGES.  `load_shell_env` always crawls the view of the levels as they are NOW: after a load with
+    `merge=False` (stale merged cache) it gives exactly what it gives after the same load merged -/
+theorem load_shell_env_after_unmerged_load (c : LoadSt) (l : Level) (d : KVs) (pre : List Char) (environ : Environ) :
+    (c.loadUnmerged l d).loadShellEnv pre environ = (c.load l d).loadShellEnv pre environ := by
+  simp only [LoadSt.loadShellEnv, LoadSt.load, LoadSt.loadUnmerged]
+
+/-- … and, generally, the merged cache the object happens to carry is irrelevant to `load_shell_env` -/
+theorem load_shell_env_ignores_cache (c : LoadSt) (stale : KVs) (pre : List Char) (environ : Environ) :
+    LoadSt.loadShellEnv { c with cache := stale } pre environ = c.loadShellEnv pre environ := by
+  simp only [LoadSt.loadShellEnv, LoadSt.load]
+
 /-- collection `{a: 1}` and `P_A=5`, load; the collection is replaced by `{b: 2}`; same environment, load again —
     with the rule before the repair -/
 def staleWitnessPinned : Except CErr LoadSt :=
